@@ -143,6 +143,26 @@ class LowBitsLearner:
         pass
 
 
+class ModuleRandomLearner:
+    """Draws its actions with the module-level functions of coba.random - what coba's own deprecation warning for PMF learners
+    recommends (coba.random.choicew) and what its documentation notebooks do."""
+
+    def __init__(self, tag="mr"):
+        self.tag = tag
+
+    @property
+    def params(self):
+        return {"family": "ModuleRandom", "tag": self.tag}
+
+    def predict(self, context, actions):
+        import coba.random
+        _yield("lrn.predict")
+        return coba.random.choicew(actions, [1 / len(actions)] * len(actions))
+
+    def learn(self, context, action, reward, probability):
+        pass
+
+
 class KwargsLearner:
     """Returns (action, prob, kwargs) and demands the kwargs back in learn."""
 
@@ -245,6 +265,13 @@ class InfoLearner:
         if self.n % self.every == 0 and not (self.skip_first and self.n == 0):
             CobaContext.learning_info["published"] = f"{self.tag}:{self.n}"
         return actions[self.n % len(actions)], 1.0
+
+    def score(self, context, actions, action):
+        # (off-policy evaluators such as RejectionCB ask for scores instead of predictions: the learner reports there as well)
+        from coba.context import CobaContext
+        if self.n % self.every == 0 and not (self.skip_first and self.n == 0):
+            CobaContext.learning_info["published"] = f"{self.tag}:{self.n}"
+        return 1 / len(actions)
 
     def learn(self, context, action, reward, probability):
         if self.raise_at is not None and self.n == self.raise_at:
